@@ -55,10 +55,15 @@ def _c10_vm_call(toks, blobs):
     n = {b[0]: b[1] for b in blobs}
     man = {b[0]: b[2] for b in blobs}
     k = toks[0]
+    if k == "push" and man[int(toks[1])] == 2:
+        # undecodable manifest: stored, unindexable, removed again (same translation as ml/c10_main.ml)
+        d = int(toks[1]); return ["Push %d (vm_good %d %d) false" % (d, d, n[d]), "Delete %d" % d]
+    if k == "tag" and man[int(toks[1])] == 2:
+        return ["Untag %d" % (900000000 + int(toks[1]))]
     if k == "push":
-        d = int(toks[1]); return ["Push %d (vm_good %d %d) %s" % (d, d, n[d], "true" if man[d] else "false")]
+        d = int(toks[1]); return ["Push %d (vm_good %d %d) %s" % (d, d, n[d], "true" if man[d] == 1 else "false")]
     if k == "pushbad":
-        d = int(toks[1]); return ["Push %d (vm_bad %d %d) %s" % (d, d, n[d], "true" if man[d] else "false")]
+        d = int(toks[1]); return ["Push %d (vm_bad %d %d) %s" % (d, d, n[d], "true" if man[d] == 1 else "false")]
     if k == "tag":
         return ["Tag %s %s" % (toks[1], toks[2])]
     if k == "untag":
